@@ -49,13 +49,13 @@ def silence_cases(chk):
 
 def run(chk):
     t = chk.tier
-    for variant in ("full", "nohv", "resume"):
+    for variant in ("full", "nohv", "resume", "split"):
         res = vlib.tlc_check(MODULE, "Handshake12.%s.safe.%s.cfg" % (variant, t), timeout=2400)
         chk.add_tlc("safe." + variant, res)
     vlib.tlc_expect_violation(MODULE, "Handshake12.resume.safe.noesf.cfg", "FinalFlightOnlyOnPeerRetx", timeout=600)
     binary = vlib.build("root")
-    # (B) script replay with the law predicates
-    for variant in ("full", "nohv", "resume"):
+    # (B) script replay with the law predicates ("split": Flight 4 in two datagrams - new data that does not complete a flight)
+    for variant in ("full", "nohv", "resume", "split"):
         scripts = hsreplay.generate(chk, variant)
         fams = hsreplay.families(variant)
         for fam in fams[:2] if chk.quick else fams:
@@ -66,7 +66,8 @@ def run(chk):
                 for v in r.get("law", [])[:1]:
                     nlaw += 1
                     chk.violation({"kind": "timer-law", "variant": fam, "what": v.split(": ", 1)[-1],
-                                   "script": {"scen": sc, "steps": share[r["script"]]["steps"], "cap": 2, "bkcap": 3}})
+                                   "script": {"scen": sc, "steps": share[r["script"]]["steps"], "cap": 2, "bkcap": 3,
+                                              "split": variant == "split"}})
                 if r.get("diverge") and not r.get("law"):
                     chk.note("DIVERGENCE model/code (%s script %d): %s" % (fam, r["script"], r["diverge"][0]))
             chk.parts["replay." + fam] = {"scripts": summ["scripts"], "law_violations": nlaw}
